@@ -2,28 +2,32 @@
    DynSpec.pgm_contract discharged by the index contract of ComposeIdx.v.
 
    pgm_contract quantifies over every list of integers below kmax, while the index contract holds for
-   keys that are values of the key type K (in_ktype) in arrays of fewer than 2^32 elements.  Hence:
+   keys that are values of the key type K (in_ktype) in arrays of at most 2^30 elements.  Hence:
    (1) the contract is proved for idx_ops restricted to such lists (idx_contract_on);
    (2) it is proved in full for a guarded variant gops (same index on such lists, a trivial index on
        the others), to which the theorems of DynCore.v / DynIter.v apply;
    (3) the runs of the container over idx_ops and over gops coincide as long as every level of every
        reached state is such a list (level_good), which transfers the theorems to idx_ops. *)
 Require Import Base Fp PlaModel GenLeaf IndexModel IndexProofs IdxFed IdxChain DynModel DynSpec DynExec
-  DynCoreLemmas DynCoreInv DynCoreRefine DynCoreQuery DynCore DynIter ComposeIdx.
+  DynCoreLemmas DynCoreInv DynCoreRefine DynCoreQuery DynCore DynIter ComposeIdx ComposeBuild.
 From Coq Require Import ZifyBool.
 Local Open Scope Z_scope.
 
-(* totality of build on its precondition, with the 32-bit size of the segment array (residual
-   hypothesis of this file; see ComposeIdx.v) *)
+(* totality of build on its precondition, with the 32-bit size of the segment array: proved in
+   ComposeBuild.v for up to 2^30 keys and cfg_small configurations *)
 Definition build_ok (c : cfg) : Prop :=
-  forall data, data_ok c data -> exists ix, build c data = Ok ix /\ zlen (ix_segments ix) < 2 ^ 32.
+  forall data, data_ok c data -> zlen data <= 2 ^ 30 ->
+    exists ix, build c data = Ok ix /\ zlen (ix_segments ix) < 2 ^ 32.
+
+Theorem build_ok_holds c : idx_ok c -> cfg_small c -> build_ok c.
+Proof. intros Hc Hsm data Hd Hn. exact (build_total c data Hc Hsm Hd Hn). Qed.
 
 (* lists of keys a level of DynamicPGMIndex<K,V> can hold *)
 Definition goodb (c : cfg) (keys : list Z) : bool :=
-  forallb (in_ktype (c_kt c)) keys && (zlen keys <? 2 ^ 32).
+  forallb (in_ktype (c_kt c)) keys && (zlen keys <=? 2 ^ 30).
 
 Lemma goodb_spec c keys : goodb c keys = true ->
-  Forall (fun x => in_ktype (c_kt c) x = true) keys /\ zlen keys < 2 ^ 32.
+  Forall (fun x => in_ktype (c_kt c) x = true) keys /\ zlen keys <= 2 ^ 30.
 Proof.
   unfold goodb. intros H. apply andb_prop in H. destruct H as [H1 H2]. split; [|lia].
   apply Forall_forall. intros x Hx. rewrite forallb_forall in H1. apply H1. exact Hx.
@@ -38,6 +42,7 @@ Proof.
   intros Hne Hs Hk Hg. destruct (goodb_spec c keys Hg) as [Hkt Hn]. constructor; try assumption.
   - apply ssortedb_sorted. exact Hs.
   - apply last_lt_of_Forall; assumption.
+  - lia.
 Qed.
 
 Lemma idx_search_window c keys ix q :
@@ -65,12 +70,12 @@ Record idx_contract_on (c : cfg) : Prop := mkContractOn {
 Theorem idx_ops_contract_on c : idx_ok c -> float_ok_all c -> build_ok c -> idx_contract_on c.
 Proof.
   intros Hc Hf Hbo. constructor.
-  - intros keys Hne Hs Hk Hg. destruct (Hbo keys (good_data_ok c keys Hne Hs Hk Hg)) as (ix & Hb & _).
+  - intros keys Hne Hs Hk Hg. destruct (Hbo keys (good_data_ok c keys Hne Hs Hk Hg) (proj2 (goodb_spec c keys Hg))) as (ix & Hb & _).
     exists ix. exact Hb.
   - intros keys p q Hb Hne Hs Hg Hq. cbn [pg_build idx_ops] in Hb.
     destruct (goodb_spec c keys Hg) as [Hkt Hn].
-    pose proof (data_ok_of_build c keys p Hne (ssortedb_sorted keys Hs) Hkt Hn Hb) as Hd.
-    destruct (Hbo keys Hd) as (ix & Hb' & Hs32). rewrite Hb in Hb'. injection Hb' as <-.
+    pose proof (data_ok_of_build c keys p Hne (ssortedb_sorted keys Hs) Hkt ltac:(lia) Hb) as Hd.
+    destruct (Hbo keys Hd Hn) as (ix & Hb' & Hs32). rewrite Hb in Hb'. injection Hb' as <-.
     exact (idx_search_window c keys p q Hc Hf Hd Hb Hs32 Hq).
 Qed.
 
@@ -136,7 +141,7 @@ Proof.
   intros H. injection H as <-. reflexivity.
 Qed.
 
-(* every level of the state is a list of keys of type K with fewer than 2^32 elements *)
+(* every level of the state is a list of keys of type K with at most 2^30 elements *)
 Definition level_good (c : cfg) (d : @dyn index) : Prop :=
   Forall (fun l => goodb c (map it_key l) = true) (d_levels d).
 
@@ -409,12 +414,12 @@ Section DynIdx.
   Variable c : cfg.
   Hypothesis Hc : idx_ok c.
   Hypothesis Hf : float_ok_all c.
-  Hypothesis Hbo : build_ok c.
+  Hypothesis Hsm : cfg_small c.
   Variables (d : @dyn index) (m : amap).
   Hypothesis Hh : ihist c d m.
   Hypothesis Hsz : DynCoreQuery.sizes_ok d.
 
-  Let Hcon := gops_contract c Hc Hf Hbo.
+  Let Hcon := gops_contract c Hc Hf (build_ok_holds c Hc Hsm).
   Let Hg := ihist_ghist_g c d m Hh.
   Let Hr := ihist_real c d m Hh.
 
@@ -467,9 +472,8 @@ Print Assumptions C06_range_idx.
      every list of integers below kmax (negative keys for an unsigned K, 2^32 or more keys), on which
      the index model wraps.  It is replaced by idx_contract_on (restricted to goodb lists), by the full
      contract of the guarded instance gops, and by the transfer lemmas (ihist_ghist_g, *_eq).
-   - build_ok c (totality of build on data_ok inputs + fewer than 2^32 segments in total) is a
-     hypothesis of every theorem that uses the contract.
-   - level_good c d' is a premise of every update step of ihist; it is not derived from the typing of
-     the inserted keys (would need: the keys of the merged level are keys of the merged inputs, and
-     lp_sizes / lp_buffer with dyn_max_size base (used-1) < 2^32).
+   - build_ok c (totality of build + fewer than 2^32 segments in total) is proved in ComposeBuild.v
+     for at most 2^30 keys and c_par <= 20, c_eps, c_epsrec <= 2^31 (cfg_small); hence the 2^30 in goodb.
+   - level_good c d' is a premise of every update step of ihist; ComposeDynGood.v derives it from the
+     typing of the inserted keys (in_ktype) and the capacity bound cap30 (thist_ihist).
    ------------------------------------------------------------------------------------------------ *)
